@@ -209,6 +209,40 @@ CHECKS = {
         note='Trusted: the structural walker. Nesting depth is bounded by the interpreter\'s recursion limit, which is not the parser\'s property; RecursionError is not judged.'),
 }
 
+# Later strengthenings, applied to the texts above (each old fragment must still be present).
+REVISIONS = [
+    ('C09', 'technique', "x premise permutations; metamorphic oracle", "x premise permutations, plus completely enumerated small premise sets under every permutation; metamorphic oracle"),
+    ('C09', 'text', "and with its premises permuted and duplicated; any exception or two different non-limited verdicts is a violation.",
+     "with model building switched on, and with its premises permuted and duplicated; any exception or two different non-limited verdicts is a violation. "
+     "Beside the random search, every 2-/3-element subset of pools of literals, short quantified and short modal sentences is used as the premise set "
+     "under every permutation (finite sub-domains where premise order is the only thing that varies)."),
+    ('C11', 'technique', "Hypothesis schema-substitution arguments over", "Hypothesis schema-substitution arguments (standard valid forms and modal / quantifier probe forms) over"),
+    ('C11', 'text', "are proved in the weaker logic", "and probe forms that hold in few logics (G, McKinsey, agglomeration ...: an unsound weaker logic is refuted by its "
+     "stronger partner) are proved in the weaker logic"),
+    ('C12', 'technique', "(plus an exhaustive small universe)", "over generated sentences, their one-point neighbours and an exhaustive small universe"),
+    ('C12', 'text', "over all generated sentences and an exhaustively enumerated small universe", "over all generated sentences, four one-point neighbours of each (one parameter, "
+     "operator or letter changed, operands or parameters swapped) and an exhaustively enumerated small universe (arities 1-4, max_infix 0/3/5)"),
+    ('C13', 'technique', "+ atheris (libFuzzer) byte-level target", "+ deep nesting under a lowered recursion limit + atheris (libFuzzer) byte-level target"),
+    ('C13', 'text', "and compared with a fresh parser holding the same store;", "and compared with a fresh parser holding the same store (optionally with an unrelated second parser "
+     "used in between, and with drop_parens=False); eight nested shapes per notation are parsed at every depth and stack alignment with the recursion limit lowered so that "
+     "the stack is exhausted at every point of the parse;"),
+    ('C13', 'note', "Nesting depth is bounded by the interpreter's recursion limit, which is not the parser's property; RecursionError is not judged.",
+     "Stack exhaustion is part of the input space: a RecursionError escaping the parser is a violation (one such defect was found and fixed, 996bf3a)."),
+    ('C17', 'text', "and time limits under a fake clock are applied;", "and time limits under a fake clock -- alone and combined with a step limit -- are applied;"),
+    ('C18', 'technique', "+ exhaustive enumeration of short operation sequences", "+ exhaustive enumeration of short operation sequences + atheris (libFuzzer) coverage-guided operation sequences"),
+    ('C18', 'text', "are enumerated exhaustively.", "are enumerated exhaustively, and a coverage-guided atheris target decodes bytes into operation sequences for the same oracle."),
+    ('C19', 'text', "rendering twice must give identical text,", "rendering twice must give identical text -- back to back and again after every other writer has been used --,"),
+    ('C04', 'note', "Components are atomic (compound components", "Components are atomic or negated atoms (other compound components"),
+    ('C06', 'text', "and every new_constant()/new_world() request made during random first-order / modal proofs checked at call time.",
+     "and random first-order / modal proofs are stepped: every new_constant()/new_world() request is checked at call time, and every witness step (quantifier / modal / "
+     "Serial) is compared with a snapshot of the branch taken before it, whether or not the rule asked the branch for its witness."),
+    ('C01', 'text', "Arguments are generated together with a reference countermodel,", "Arguments are generated together with a reference countermodel (a third of them rule-first: "
+     "several instances of one drawn top-level form),"),
+]
+for _k, _f, _old, _new in REVISIONS:
+    assert _old in CHECKS[_k][_f], (_k, _f, _old[:40])
+    CHECKS[_k][_f] = CHECKS[_k][_f].replace(_old, _new, 1)
+
 NOT_YET = 'check not built yet in this session (planned, see DESIGN.md section 5); no claim is made'
 
 def main():
